@@ -14,6 +14,10 @@ type frame struct {
 	freeVars    []*ObjectPtr
 	ip          int
 	basePointer int
+	// discardResult is set when the frame was reused by a self call whose
+	// result the caller pops (CALL; POP; RETURN): the frame then returns
+	// undefined whatever the callee returns.
+	discardResult bool
 }
 
 // VM is a virtual machine that executes the bytecode compiled by Compiler.
@@ -609,6 +613,9 @@ func (v *VM) run() {
 					if nextOp == parser.OpReturn ||
 						(nextOp == parser.OpPop &&
 							parser.OpReturn == v.curInsts[v.ip+2]) {
+						if nextOp == parser.OpPop {
+							v.curFrame.discardResult = true
+						}
 						for p := 0; p < numArgs; p++ {
 							v.stack[v.curFrame.basePointer+p] =
 								v.stack[v.sp-numArgs+p]
@@ -629,6 +636,7 @@ func (v *VM) run() {
 				v.curFrame.fn = callee
 				v.curFrame.freeVars = callee.Free
 				v.curFrame.basePointer = v.sp - numArgs
+				v.curFrame.discardResult = false
 				v.curInsts = callee.Instructions
 				v.ip = -1
 				v.framesIndex++
@@ -673,7 +681,7 @@ func (v *VM) run() {
 		case parser.OpReturn:
 			v.ip++
 			var retVal Object
-			if int(v.curInsts[v.ip]) == 1 {
+			if int(v.curInsts[v.ip]) == 1 && !v.curFrame.discardResult {
 				retVal = v.stack[v.sp-1]
 			} else {
 				retVal = UndefinedValue
